@@ -58,4 +58,31 @@ CLAIMED = {
                 "table says so. Two genuine defects (Nexus.add, Nexus.add_function) are recorded as known findings; reasoned exemptions are in kv/rules/c19.py.",
         "technique": "CFG reachability write ~> rejection with interprocedural effect summaries and rollback-idiom recognition; guard-presence table over guard conditions",
     },
+    "C01": {
+        "text": "Wiring between cost functions and the Nexus graph, decided on tables reconstructed from the source by constant propagation (no repo object "
+                "is created): for each of the 4 fit classes the registry (identifier -> class, kwargs) and for each entry the abstract execution of the "
+                "constructor chain yields (handle, formals, wired node names, flags, pointwise twin); the abstract execution of _init_nexus yields the static "
+                "node/edge table. Rules: formals = wired names and all wired names are nodes (D1); the determinant node matches the quadratic form and the node "
+                "chi2_probability subtracts (D2); the pointwise twin keeps the effective flags (D3); implicit arguments are appended and stripped symmetrically "
+                "(D4); y-only XY variants wire y_ nodes only (D5); invalidation callbacks are stored in fields that are read and both containers are hooked (D6); "
+                "normalised axis used (D8); the node bound to `model` depends on the parameters (D9); implicit chi2_no_errors switch, tolerance-free diagonality "
+                "test and cost selection in do_fit (Dsw). Each rule is a necessary condition of 'cost = documented -2 log L of exactly the declared inputs'.",
+        "note": "Numerical equality of the QR/Cholesky chi2 with r^T V^-1 r, the formulas inside the handles and the numerical derivative of the x-projection "
+                "are not decided here. Known, not checked: histogram model-relative uncertainties are relative to the unscaled density integral (FIXME in "
+                "kafe2/fit/histogram/fit.py). MultiFit / CustomFit graphs are built from runtime objects and are outside the constant evaluator.",
+        "technique": "constant-propagating abstract interpretation of table-building code (registry, constructors, _init_nexus) + name/edge agreement rules",
+    },
+    "C03": {
+        "text": "History independence of fit observables as cache-coherence obligations over the static Nexus graph of each fit class (XY, Indexed, Hist, "
+                "Unbinned): for every public entry point E and every observable-reachable property node N, if E writes a hidden input of N's getter (fields of "
+                "the data container / parametric model / constraint list, derived from interprocedural read/write effects, getter-internal refreshes and the "
+                "lazy parameter push excluded) then N must lie in the dependents-closure of the nodes E marks on every normal path - including marks reached "
+                "through the container -> fit callback (Cnx); required graph edges (Cedge); reset of the minimizer clears the did-fit flag (Cfit); mutators drop "
+                "loaded results (Cload); the cost node is re-selected when the covariance shape can change (Cmin); the freeze protocol of do_fit is well "
+                "bracketed and nothing else freezes nodes (F5); getters write no configuration state (Cget).",
+        "note": "Equality with a freshly built fit as a numerical statement is not decided; exception paths through the backend between freeze and unfreeze "
+                "are out of scope (the property speaks of fits that have run). MultiFit members keep multi-fit results after member-level setters (not checked). "
+                "Reasoned exemptions in kv/rules/c03.py (READ_EXEMPT, WRITE_EXEMPT, ENTRY_EXEMPT).",
+        "technique": "static Nexus graph by constant propagation + interprocedural effects + must-pass-through marks (callback-aware) per entry point",
+    },
 }
